@@ -82,7 +82,7 @@ def handleTrap (line : String) : String :=
       let sb0 : SBus := { mem := mem0, trace := #[], budget := 200000 }
       let handler : Option (Script SBus) := if path == "N" then none else some (scriptOf k t)
       let bus := trapBus sbus t handler
-      let (stop, mach) := Impl.runExt (Generated.opTable model) Generated.consts model bus 60000 0x0800 true
+      let (stop, mach) := Impl.runExt (Generated.opTable model) Generated.driverConsts model bus 60000 0x0800 true
         { regs := regs0, cycles := 0, mem := { inner := sb0, log := [] } }
       let kind := if kindOf stop == "halt" then "halt" else "error"
       let obsOf (sb : SBus) : String :=
@@ -145,7 +145,7 @@ def handlePort (line : String) : String :=
       let ports : Nat → Option Port := fun o => (cfg.find? (·.1 == o)).map (·.2)
       let sb0 : SBus := { mem := loadCode [] 0x0800 code, trace := #[], budget := 200000 }
       let bus := portBus sbus io ports
-      let (stop, mach) := Impl.runExt (Generated.opTable .m65C02) Generated.consts .m65C02 bus 20000 0x0800 true
+      let (stop, mach) := Impl.runExt (Generated.opTable .m65C02) Generated.driverConsts .m65C02 bus 20000 0x0800 true
         { regs := regs0, cycles := 0, mem := { inner := sb0, count := fun _ => 0, out := [] } }
       let kind := if kindOf stop == "halt" then "halt" else "error"
       let mine := s!"{kind} {showRegs mach.regs} {mach.cycles}"
